@@ -9,11 +9,69 @@ from .ctx import MachineryError
 from .drv import script as S
 
 
+def _pushes(script):
+    """data items pushed by a script (best effort; stops at a malformed push)"""
+    out = []
+    pc = 0
+    n = len(script)
+    while pc < n:
+        op = script[pc]
+        if op < 76:
+            ln, hdr = op, 1
+        elif op == 76 and pc + 1 < n:
+            ln, hdr = script[pc + 1], 2
+        elif op == 77 and pc + 2 < n:
+            ln, hdr = script[pc + 1] + 256 * script[pc + 2], 3
+        elif op in (76, 77, 78):
+            break
+        else:
+            pc += 1
+            continue
+        if pc + hdr + ln > n:
+            break
+        if ln:
+            out.append(bytes(script[pc + hdr:pc + hdr + ln]))
+        pc += hdr + ln
+    return out
+
+
+def preseed(case):
+    """answer in advance the hash questions a case is likely to ask: every hash opcode that occurs in one of
+    its scripts, applied to every pushed item / witness item / initial stack item (saves TLC rounds;
+    entries that are never asked for are harmless)"""
+    scripts = [bytes(case["sig"]), bytes(case["pk"])] + [bytes(w) for w in case["wit"]]
+    items = set()
+    for sc in scripts:
+        for d in _pushes(sc):
+            items.add(d)
+            for d2 in _pushes(d):          # pushes inside a pushed script (P2SH redeem scripts)
+                items.add(d2)
+    for w in case["wit"]:
+        items.add(bytes(w))
+        for d in _pushes(bytes(w)):
+            items.add(d)
+    for x in case["stack"]:
+        items.add(bytes(x))
+    blob = b"".join(scripts)
+    ops = [op for op in (166, 167, 168, 169, 170) if op in blob]
+    if case["kind"] == "spend" and case["wit"]:
+        ops = sorted(set(ops) | {168, 169})
+    have = {(e[0], bytes(e[1])) for e in case["hashes"]}
+    for op in ops:
+        for d in items:
+            if len(d) <= 10000 and (op, d) not in have:
+                have.add((op, d))
+                case["hashes"].append([op, list(d), list(S.hash_oracle(op, d))])
+
+
 def spec_run(ctx, cases, sig_oracle, workers=16, max_rounds=8, label=""):
     """cases: list of case dicts (mutated: oracle entries are appended).
     sig_oracle(case, sig, key, code, sv) -> bool.
     Returns list of result records (status ok/fail, err, stack) aligned with cases."""
     results = [None] * len(cases)
+    for c in cases:
+        if len(c["hashes"]) == 0:
+            preseed(c)
     todo = list(range(len(cases)))
     for rnd in range(max_rounds):
         if not todo:
